@@ -161,6 +161,18 @@ LateAttempt(rc, o) ==
   /\ AttemptEff(rc, o) /\ late' = FALSE
   /\ UNCHANGED <<cfg, st, ended, res>>
 
+\* The call has not returned although nothing keeps it any more (recorded by the harness after a
+\* watchdog).  Legitimate only where the call may block for ever: fn hangs, or the huge interval is
+\* being slept, and no context error is or will be in force.
+MayBlockForever ==
+  /\ ended = {} /\ outs # <<>>
+  /\ \/ outs[Len(outs)].out = "hang"
+     \/ cfg.ivl = "huge" /\ AllFail(cfg, outs)
+Stuck ==
+  /\ st = "run" /\ MayBlockForever
+  /\ st' = "end"
+  /\ UNCHANGED <<cfg, outs, ended, res, late>>
+
 \* the harness has seen every goroutine of the call finish (or be stuck for good)
 End ==
   /\ st = "ret" /\ st' = "end"
